@@ -8,6 +8,8 @@ shift register; this file lifts it to the parser.
 -/
 import StunVerif.Props.C09
 import StunVerif.Lemmas.CrcBurst
+import StunVerif.Lemmas.FpDetect
+import StunVerif.Props.C02
 namespace StunVerif.C09
 open StunVerif
 
@@ -23,7 +25,53 @@ theorem fp_detects (b b' : Bytes) (pre pre' : List Spec.Tlv) (x x' : Spec.Tlv)
     (hw : Spec.WellFormedAs b (pre ++ [x])) (hw' : Spec.WellFormedAs b' (pre' ++ [x']))
     (hx : x.ty = tyFP) (hx' : x'.ty = tyFP) (hlen : b.length = b'.length) (s : Nat)
     (hwin : ∀ i, Crc.bitAt b i ≠ Crc.bitAt b' i → s ≤ i ∧ i < s + 32) : b = b' := by
-  sorry
+  obtain ⟨h28, h4, hdrop, hcrc⟩ := wellFormedAs_fp_last b pre x hw hx
+  obtain ⟨_, h4', hdrop', hcrc'⟩ := wellFormedAs_fp_last b' pre' x' hw' hx'
+  rw [← hlen] at hdrop' hcrc'
+  have key : b.take (b.length - 8) = b'.take (b.length - 8) ∧ x.value = x'.value := by
+    by_cases hs : s + 32 ≤ 8 * (b.length - 4)
+    · -- the window ends before the value bytes: the values agree, so the CRCs agree
+      have hv : x.value = x'.value := by
+        have hd : b.drop (b.length - 4) = b'.drop (b.length - 4) :=
+          drop_eq_of_getD b b' _ hlen (fun k hk => getD_eq_of_bitAt b b' k (fun j _ => by
+            apply Classical.byContradiction
+            intro hne
+            have := hwin _ hne
+            omega))
+        have e : b.drop (b.length - 4) = x.value := by
+          rw [show b.length - 4 = (b.length - 8) + 4 by omega, ← List.drop_drop, hdrop]
+          rfl
+        have e' : b'.drop (b.length - 4) = x'.value := by
+          rw [show b.length - 4 = (b.length - 8) + 4 by omega, ← List.drop_drop, hdrop']
+          rfl
+        rw [← e, ← e', hd]
+      refine ⟨?_, hv⟩
+      have hc : Crc.crc32Bytes (fpInput b (b.length - 8) 8) =
+          Crc.crc32Bytes (fpInput b' (b.length - 8) 8) := by rw [← hcrc, ← hcrc', hv]
+      have hin : fpInput b (b.length - 8) 8 = fpInput b' (b.length - 8) 8 := by
+        apply Classical.byContradiction
+        intro hne
+        exact Crc.crc32Bytes_burst_pair _ _ (by rw [fpInput_length, fpInput_length, hlen]) s
+          (fun i hi => hwin i (fpInput_bitAt_ne b b' _ _ i (by omega) (by omega) (by omega) hi))
+          hne hc
+      apply take_eq_of_fpInput_eq b b' _ 8 (by omega) (by omega) (by omega) _ hin
+      rw [wellFormedAs_lenField b _ hw, wellFormedAs_lenField b' _ hw', hlen]
+    · -- the window starts after the attribute header: the prefixes agree, so the CRC inputs agree
+      have ht : b.take (b.length - 8) = b'.take (b.length - 8) :=
+        take_eq_of_getD b b' _ hlen (fun k hk => getD_eq_of_bitAt b b' k (fun j _ => by
+          apply Classical.byContradiction
+          intro hne
+          have := hwin _ hne
+          omega))
+      refine ⟨ht, ?_⟩
+      have hin : fpInput b (b.length - 8) 8 = fpInput b' (b.length - 8) 8 := by
+        unfold fpInput
+        rw [ht]
+      have hxor : xorBytes x.value [0x53, 0x54, 0x55, 0x4e] =
+          xorBytes x'.value [0x53, 0x54, 0x55, 0x4e] := by rw [hcrc, hcrc', hin]
+      exact xorBytes_key_inj _ _ _ (by rw [h4]; rfl) (by rw [h4']; rfl) hxor
+  rw [← List.take_append_drop (b.length - 8) b, ← List.take_append_drop (b.length - 8) b', hdrop,
+    hdrop', key.1, key.2]
 
 /-- the same in terms of the parser: if `b` and `b'` are both accepted (`msgFromBytes … = .ok`)
     with a FINGERPRINT as their last attribute, have equal length and differ at all, their
@@ -33,6 +81,23 @@ theorem fp_detects_parser (b b' : Bytes) (m m' : Msg) (hp : msgFromBytes b = .ok
     (hf' : (m'.allAttrs.getLast?.map (·.ty)) = some tyFP) (hlen : b.length = b'.length)
     (hne : b ≠ b') (s : Nat) :
     ∃ i, Crc.bitAt b i ≠ Crc.bitAt b' i ∧ ¬ (s ≤ i ∧ i < s + 32) := by
-  sorry
+  apply Classical.byContradiction
+  intro hn
+  apply hne
+  obtain ⟨ts, hw⟩ := (C02.parse_iff b).mp ⟨m, hp⟩
+  obtain ⟨ts', hw'⟩ := (C02.parse_iff b').mp ⟨m', hp'⟩
+  have ha := (C02.parse_faithful b m ts hp hw).2.2.2.1
+  have ha' := (C02.parse_faithful b' m' ts' hp' hw').2.2.2.1
+  rw [ha, List.getLast?_map, Option.map_map] at hf
+  rw [ha', List.getLast?_map, Option.map_map] at hf'
+  obtain ⟨x, hxl, hx⟩ := Option.map_eq_some_iff.mp hf
+  obtain ⟨x', hxl', hx'⟩ := Option.map_eq_some_iff.mp hf'
+  obtain ⟨pre, rfl⟩ := List.getLast?_eq_some_iff.mp hxl
+  obtain ⟨pre', rfl⟩ := List.getLast?_eq_some_iff.mp hxl'
+  refine fp_detects b b' pre pre' x x' hw hw' hx hx' hlen s ?_
+  intro i hi
+  apply Classical.byContradiction
+  intro hc
+  exact hn ⟨i, hi, hc⟩
 
 end StunVerif.C09
